@@ -5,6 +5,7 @@ import (
 	"flag"
 	"fmt"
 	"strings"
+	"time"
 
 	"github.com/emersion/go-imap/v2/imapclient"
 	"github.com/emersion/go-imap/v2/internal/vsched"
@@ -69,6 +70,55 @@ func main() {
 			}
 			return "", ""
 		},
+	}
+	// shim primitives the current tree does not use but a change to it might: Cond, After, AfterFunc
+	prim := func(signal bool) *vx.Scenario {
+		return &vx.Scenario{
+			Name: fmt.Sprintf("cond+timers signal=%v", signal),
+			Body: func() interface{} {
+				var mu vsched.Mutex
+				cond := vsched.NewCond(&mu)
+				ready, fired, got := false, false, 0
+				vsched.Go("producer", func() {
+					mu.Lock()
+					ready = true
+					mu.Unlock()
+					if signal {
+						cond.Signal()
+					}
+				})
+				vsched.AfterFunc(time.Second, func() { mu.Lock(); fired = true; mu.Unlock() })
+				tc := vsched.After(time.Second)
+				mu.Lock()
+				for !ready {
+					cond.Wait()
+				}
+				mu.Unlock()
+				vsched.FireTimers()
+				vsched.Recv(tc)
+				<-tc
+				got++
+				vsched.WaitUntil("afterfunc", func() bool { return fired })
+				return fmt.Sprint(ready, fired, got)
+			},
+			Check: func(res *vsched.Result, obs interface{}) (string, string) {
+				want := "ok"
+				if !signal && res.Verdict == "deadlock" {
+					return "", "" // only the schedules where the consumer waits first deadlock
+				}
+				if res.Verdict != want || obs != "true true 1" {
+					return "verdict-" + res.Verdict, fmt.Sprint(obs, res.Blocked, res.Panics)
+				}
+				return "", ""
+			},
+		}
+	}
+	for _, signal := range []bool{true, false} {
+		st := vx.Explore(prim(signal), vx.Config{Bound: 2})
+		fmt.Printf("%s executions=%d verdicts=%v engineErr=%q failures=%d\n", prim(signal).Name, st.Executions, st.Verdicts, st.EngineErr, len(st.Failures))
+		for _, f := range st.Failures {
+			fmt.Printf("FAIL %s choices=%v %s\n", f.Key, f.Choices, f.Detail)
+		}
 	}
 	for b := 0; b <= *bound; b++ {
 		st := vx.Explore(sc, vx.Config{Bound: b})
